@@ -23,6 +23,7 @@ type MIdx struct {
 	Cfg  IndexCfg
 	Dim  int
 	Vecs map[string]*MVec
+	Ever int // nodes ever inserted into the current graph (deleted ones stay until vacuumed)
 }
 
 type MVec struct {
@@ -233,6 +234,11 @@ func (m *Model) vacuumGraph(cutoff int64) {
 
 // ---------------------------------------------------------------- vectors
 
+// exact reports whether the index is in the regime where approximate search is
+// exhaustive: at most 2*M nodes ever inserted (deleted ones count until they
+// are vacuumed) and a construction beam wide enough to link them all.
+func (mi *MIdx) exact() bool { return mi.Ever <= 2*mi.Cfg.M && mi.Cfg.EfC >= 2*mi.Cfg.M }
+
 func (mi *MIdx) memEnabled() bool { return mi.Cfg.Mem != nil && mi.Cfg.Mem.Enabled }
 
 // injectMemory applies the documented memory-index defaults to metadata of a new vector.
@@ -301,11 +307,12 @@ func (m *Model) applyAdd(idx string, mi *MIdx, id string, vec []float32, meta ma
 	if mi.Dim == 0 {
 		mi.Dim = len(vec)
 	}
-	meta = cloneMeta(meta)
+	meta = modelMeta(meta)
 	if memInject {
 		meta = mi.injectMemory(meta, float64(now/1e9))
 	}
 	mv := mi.store(vec)
+	mi.Ever++
 	if len(meta) > 0 {
 		mv.Meta = meta
 	} else {
@@ -413,7 +420,7 @@ func (m *Model) Apply(op Op, now int64) Outcome {
 		}
 		for _, it := range op.Items {
 			// batch paths inject only _created_at (documented for VAdd: layer defaults too)
-			meta := cloneMeta(it.Meta)
+			meta := modelMeta(it.Meta)
 			if mi.memEnabled() {
 				if meta == nil {
 					meta = map[string]any{}
@@ -447,7 +454,7 @@ func (m *Model) Apply(op Op, now int64) Outcome {
 		if mv == nil {
 			return Outcome{Reject: true, Why: "unknown node"}
 		}
-		for k, v := range op.Meta {
+		for k, v := range modelMeta(op.Meta) {
 			mv.Meta[k] = v
 		}
 	case "reinforce":
@@ -531,6 +538,7 @@ func (m *Model) Apply(op Op, now int64) Outcome {
 			return Outcome{Undefined: true, Why: "compress from a non-float32 index"}
 		}
 		mi.Cfg.Prec = op.Prec
+		mi.Ever = len(mi.Vecs)
 		for _, mv := range mi.Vecs {
 			mv.Class = op.Prec
 		}
